@@ -2,7 +2,7 @@
    baseline, the plan, the replayed result and (parsed by tools/mysql_sqlparse.py) the MySQL statements THE
    IMPLEMENTATION emitted; everything below is evaluated by vm_compute on those terms.  No proofs here. *)
 From VV.M1 Require Export Corr.
-From VV.MYSQL Require Export Engine Assumptions Known Spec SpecKeys SpecCreate.
+From VV.MYSQL Require Export Engine Assumptions Known Spec SpecKeys SpecCreate SpecFk.
 
 Inductive impl_result :=
 | IOk (l : list (list stmt))      (* per action, empty strings dropped *)
